@@ -241,7 +241,10 @@ def struct_class(rec):
     return "struct:multibyte+nobyteorder_field"
 
 
-def judge(ctx, recs, what):
+def judge(ctx, recs, what, pending=None):
+    """TLC judges the records; rejected steps become violations (collected in `pending` so that the
+    shortest failing chain of each signature is reported first)"""
+    emit = pending if pending is not None else []
     rejects = tracecheck.validate(ctx, "ByteOrderTrace.tla",
                                   [{k: r[k] for k in ("id", "kinds", "spell", "ops", "st")} for r in recs],
                                   what=what, constants={"MachineLE": MACHINE_LE})
@@ -266,10 +269,17 @@ def judge(ctx, recs, what):
             case = {"kind": "chain", "init": {"plain": r["plain"], "kinds": r["kinds"], "spell": r["spell"]},
                     "ops": r["ops"][:k],
                     "conc": r["conc"], "dtype": r["dtype"], "shape": r["shape"], "failing_step": k, "clause": clause}
-            ctx.violation("%s|%s|%s" % (entry, clause, struct_class(r)),
-                          "byte-order conversion outcome not allowed by ByteOrder.tla: step %d (%s) fails clause %s on %s%s"
-                          % (k, entry, clause, r["dtype"], tuple(r["shape"])), case)
+            emit.append((len(case["ops"]), rid, "%s|%s|%s" % (entry, clause, struct_class(r)),
+                         "byte-order conversion outcome not allowed by ByteOrder.tla: step %d (%s) fails clause %s on %s%s"
+                         % (k, entry, clause, r["dtype"], tuple(r["shape"])), case))
+    if pending is None:
+        flush(ctx, emit)
     return rejects
+
+
+def flush(ctx, pending):
+    for _, _, sig, what, case in sorted(pending, key=lambda t: (t[0], t[1])):
+        ctx.violation(sig, what, case)
 
 
 # ---- bounds ---------------------------------------------------------------------------
@@ -329,7 +339,8 @@ def run(ctx):
             cfg_text=cfg(constants=dict(full, MachineLE=MACHINE_LE), invariants=THEOREMS),
             workers=16, require=ACTIONS, timeout=3000)
     ctx.tlc("ByteOrderMC.tla", what="theorems + mechanism refines property (other machine order)",
-            cfg_text=cfg(constants=dict(full, MachineLE=not MACHINE_LE, MaxDepth=2), invariants=THEOREMS),
+            cfg_text=cfg(constants=dict(full, MachineLE=not MACHINE_LE, MaxDepth=2, MaxFields=2 if ctx.quick else 3),
+                         invariants=THEOREMS),
             workers=16, require=ACTIONS, timeout=3000)
     # 1b. non-vacuity of MechRefines: the pinned decision (fields without byte order are decisive) violates it
     rb = ctx.tlc("ByteOrderMC.tla", what="self-test: unrepaired order detection violates MechRefines",
@@ -362,15 +373,17 @@ def run(ctx):
                     "observed_after_each_step": [{"res": s["res"], "current": s["arrs"][s["res"] - 1]} for s in r["st"]]})
     chunk = 40000
     rejected = set()
+    pending = []
     for i in range(0, len(recs), chunk):
-        rejected |= set(judge(ctx, recs[i:i + chunk], "judge replayed chains %d.. (ByteOrderTrace)" % (i + 1)))
+        rejected |= set(judge(ctx, recs[i:i + chunk], "judge replayed chains %d.. (ByteOrderTrace)" % (i + 1), pending))
     # 3. longer seeded chains on wider tables, code -> spec
     nrand = 1500 if ctx.quick else 30000
     rrecs = pmap(run_chain, random_chains(random.Random(ctx.seed), nrand, len(recs) + 1))
     for r in rrecs:
         ctx.count({"init": r["kinds"], "plain": r["plain"], "spell": r["spell"], "ops": r["ops"], "dtype": r["dtype"], "shape": r["shape"]})
     for i in range(0, len(rrecs), chunk):
-        judge(ctx, rrecs[i:i + chunk], "judge seeded longer chains %d.. (ByteOrderTrace)" % (i + 1))
+        judge(ctx, rrecs[i:i + chunk], "judge seeded longer chains %d.. (ByteOrderTrace)" % (i + 1), pending)
+    flush(ctx, pending)
     # 4. binding self-test: corrupted observations must be rejected, each by the clause it breaks
     selftest(ctx, [r for r in recs if r["id"] not in rejected])
     ctx.rule = ("every chain of conversions exported from ByteOrderMC.tla (%s), each executed on a real array whose field types, "
